@@ -43,7 +43,7 @@ impl PartialEq for Heap {
 
 impl Heap {
     pub fn set_size(&mut self, size: usize /* in MB */) {
-        self.max_size = size * 1024 * 1024 /* in B */
+        self.max_size = size.saturating_mul(1024 * 1024) /* in B */
     }
     pub fn set_log(&mut self, path: PathBuf) {
 
